@@ -21,7 +21,7 @@ rc, out = sh('git -C /repo worktree add -q --detach %s HEAD' % wt)
 if rc != 0:
     print(out)
     sys.exit(2)
-env = dict(os.environ, NV_REPO=wt, CARGO_NET_OFFLINE='true')
+env = dict(os.environ, NV_REPO=wt, NV_OUT='/tmp/seed/nvout-regress', CARGO_NET_OFFLINE='true')
 bad = 0
 try:
     for tag in tags:
@@ -45,8 +45,8 @@ try:
         sh('git checkout -q -- . && git clean -fdq -e target', cwd=wt)
     # the clean worktree must be silent for every property
     rc, out = sh('./nv all', cwd='/verif', env=env)
-    if 'VIOLATION' in out:
-        print('CLEAN TREE RAISES: ' + '; '.join(l for l in out.splitlines() if l.startswith('VIOLATION')))
+    if 'VIOLATION' in out or rc != 0:
+        print('CLEAN TREE RAISES (rc=%d): ' % rc + '; '.join(l for l in out.splitlines() if l.startswith('VIOLATION') or l.startswith('ERROR')))
         bad += 1
     else:
         print('clean worktree: silent')
